@@ -210,6 +210,14 @@ pub fn classify_prompt_line(line: &str) -> PromptCmd {
     if t == "q" || t == "quit" {
         return PromptCmd::Quit;
     }
+    // a command word followed by more words is not that command ("next please", "n 2", "quit it"):
+    // it is rejected like anything else
+    {
+        let w: Vec<&str> = t.split_whitespace().collect();
+        if w.len() >= 2 && matches!(w[0], "n" | "next" | "q" | "quit") && t.chars().all(|c| c.is_ascii()) {
+            return PromptCmd::Garbage;
+        }
+    }
     // only plainly spelled commands are claimed: single blanks between words, decimal numbers
     if t.starts_with("print") {
         let words: Vec<&str> = t.split(' ').collect();
